@@ -18,7 +18,8 @@ import (
 	"github.com/rs/zerolog"
 )
 
-const interval = time.Second
+// interval is the check interval of the setting being run
+var interval = time.Second
 
 type obs struct {
 	at  time.Duration
@@ -31,10 +32,20 @@ type cb struct {
 }
 
 type setting struct {
-	N        int
-	Stable   int // in intervals
-	Cooldown int // in intervals
+	N          int
+	StableMs   int // minimal stable period
+	CooldownMs int
+	IntervalMs int // check interval (0 = 1000)
 }
+
+func (s setting) interval() time.Duration {
+	if s.IntervalMs == 0 {
+		return time.Second
+	}
+	return time.Duration(s.IntervalMs) * time.Millisecond
+}
+func (s setting) stable() time.Duration   { return time.Duration(s.StableMs) * time.Millisecond }
+func (s setting) cooldown() time.Duration { return time.Duration(s.CooldownMs) * time.Millisecond }
 
 type replay struct {
 	Script  string  `json:"script"`
@@ -42,6 +53,7 @@ type replay struct {
 }
 
 func runScript(t *testing.T, script []bool, s setting) (observations []obs, callbacks []cb) {
+	interval = s.interval()
 	synctest.Test(t, func(t *testing.T) {
 		start := time.Now()
 		i := 0
@@ -59,18 +71,19 @@ func runScript(t *testing.T, script []bool, s setting) (observations []obs, call
 			OnChangeToFalse:     func() { callbacks = append(callbacks, cb{time.Since(start), false, len(observations)}) },
 			MinTimeBetweenCalls: interval,
 			ConsecutiveN:        s.N,
-			MinStablePeriod:     time.Duration(s.Stable) * interval,
-			CooldownPeriod:      time.Duration(s.Cooldown) * interval,
+			MinStablePeriod:     s.stable(),
+			CooldownPeriod:      s.cooldown(),
 		}
 		w := failsafe.NewStateChangeWatcher("verif", cfg, clock.NewRealClock(), zerolog.Nop())
 		w.RunInBackground()
 		synctest.Wait()
 		// pump virtual time until the script is consumed (bounded horizon)
-		for k := 0; k < 4*(len(script)+2)*(s.Cooldown+2) && i <= len(script); k++ {
+		cdSteps := int(s.cooldown()/interval) + 1
+		for k := 0; k < 4*(len(script)+2)*(cdSteps+2) && i <= len(script); k++ {
 			time.Sleep(interval)
 			synctest.Wait()
 			if i >= len(script) {
-				time.Sleep(interval * time.Duration(s.Cooldown+2))
+				time.Sleep(interval * time.Duration(cdSteps+2))
 				synctest.Wait()
 				break
 			}
@@ -106,11 +119,11 @@ func oracle(observations []obs, callbacks []cb, s setting) string {
 			return fmt.Sprintf("UNSTABLE reaction #%d (%s) fired after only %d consecutive observations (need %d)", ci, name(c.toTrue), runLen, s.N)
 		}
 		span := observations[last].at - observations[runStart].at
-		if span < time.Duration(s.Stable)*interval {
-			return fmt.Sprintf("UNSTABLE reaction #%d (%s) fired after the state was stable for %v (need %v)", ci, name(c.toTrue), span, time.Duration(s.Stable)*interval)
+		if span < s.stable() {
+			return fmt.Sprintf("UNSTABLE reaction #%d (%s) fired after the state was stable for %v (need %v)", ci, name(c.toTrue), span, s.stable())
 		}
-		if lastFalseAt >= 0 && c.at < lastFalseAt+time.Duration(s.Cooldown)*interval {
-			return fmt.Sprintf("COOLDOWN reaction #%d fired %v after an 'unhealthy' reaction (cool-down %v)", ci, c.at-lastFalseAt, time.Duration(s.Cooldown)*interval)
+		if lastFalseAt >= 0 && c.at < lastFalseAt+s.cooldown() {
+			return fmt.Sprintf("COOLDOWN reaction #%d fired %v after an 'unhealthy' reaction (cool-down %v)", ci, c.at-lastFalseAt, s.cooldown())
 		}
 		if !c.toTrue {
 			lastFalseAt = c.at
@@ -157,17 +170,21 @@ func TestCheck(t *testing.T) {
 		}
 		return
 	}
-	maxLen := mc.Pick(r, 10, 13)
+	maxLen := mc.Pick(r, 12, 14)
 	var settings []setting
-	for _, n := range []int{1, 2, 3} {
-		for _, st := range []int{0, 1, 2} {
-			for _, cd := range []int{0, 1, 3} {
-				settings = append(settings, setting{n, st, cd})
+	for _, iv := range []int{1000, 2000} {
+		for _, n := range []int{1, 2, 3} {
+			// stable period: none, one interval, one and a half, two; cool-down: none, one
+			// interval, two and a half, three
+			for _, st := range []int{0, iv, iv * 3 / 2, 2 * iv} {
+				for _, cd := range []int{0, iv, iv * 5 / 2, 3 * iv} {
+					settings = append(settings, setting{n, st, cd, iv})
+				}
 			}
 		}
 	}
-	r.Rule = fmt.Sprintf("every boolean observation script of length 1..%d x ConsecutiveN in {1,2,3} x MinStablePeriod in {0,1,2} check intervals x CooldownPeriod in {0,1,3} intervals, run through the real StateChangeWatcher loop in a virtual-time bubble; non-trivial = run with at least one reaction; distinct = (script, setting)", maxLen)
-	r.Assume("check interval fixed at 1s of virtual time; predicate and callbacks take no virtual time",
+	r.Rule = fmt.Sprintf("every boolean observation script of length 1..%d x check interval in {1 s, 2 s} x ConsecutiveN in {1,2,3} x MinStablePeriod in {0, 1, 1.5, 2} check intervals x CooldownPeriod in {0, 1, 2.5, 3} intervals, run through the real StateChangeWatcher loop in a virtual-time bubble; non-trivial = run with at least one reaction; distinct = (script, setting)", maxLen)
+	r.Assume("predicate and callbacks take no virtual time",
 		"only-if reading of the statement: a missing reaction is reported as an outcome, not as a violation")
 	if r.Parallel(t, 16) {
 		r.Finish(t)
